@@ -19,7 +19,6 @@ import (
 	"encoding/binary"
 	"fmt"
 	"github.com/hyperjumptech/grule-rule-engine/ast/unique"
-	"github.com/sirupsen/logrus"
 	"io"
 	"math"
 	"reflect"
@@ -399,7 +398,8 @@ func (cat *Catalog) BuildKnowledgeBase() (*KnowledgeBase, error) {
 					if node, ok := importTable[v]; ok {
 						ThenExprList.ThenExpressions[k] = node.(*ThenExpression)
 					} else {
-						logrus.Errorf("then expression with ast id %s not catalogued", v)
+
+						return nil, fmt.Errorf("then expression with ast id %s not catalogued", v)
 					}
 				}
 			}
@@ -435,7 +435,8 @@ func (cat *Catalog) BuildKnowledgeBase() (*KnowledgeBase, error) {
 			if n, ok := importTable[value]; ok {
 				workingMem.variableSnapshotMap[key] = n.(*Variable)
 			} else {
-				logrus.Warnf("snapshot %s in working memory have no referenced variable with ASTID %s", key, value)
+
+				return nil, fmt.Errorf("snapshot %s in working memory have no referenced variable with ASTID %s", key, value)
 			}
 		}
 	}
